@@ -16,7 +16,7 @@ ASSUMPTIONS = ["float scores compared with 1e-9 relative tolerance", "sequences 
 
 KINDS = ["pattern", "pattern", "insert", "gcwin", "gcwin", "gcglobal", "cds", "stop", "keep", "keep_idx", "keep_edits",
          "change", "change_idx", "change_obj", "change_min", "sequence", "choice", "terminal", "length", "rare", "cai",
-         "kmers", "hairpin"]
+         "kmers", "hairpin", "regex"]
 
 
 def rand_case(rng):
